@@ -256,7 +256,71 @@ func ruleR23_4(c *Check) {
 	r.Check(okL, lo, "log files opened with the key id from their header", nil, "logFile.open no longer reads the key id from the file header")
 }
 
+func ruleR23_5(c *Check) {
+	w := c.W
+	r := c.Rule("R23.5", "E5+E2", 5, "data-key ids are never reused: while reading the registry KeyRegistry.nextKeyID is kept as the running maximum of the ids read (the registry file is rewritten in map order, not id order); a new data key takes the id nextKeyID+1 — the increment, the id given to the key and the store into dataKeys happen in one hold of the registry's write lock — and every store into dataKeys is keyed by the id of the key stored",
+		"a reused id overwrites an older data key: every table and log file written under it becomes unreadable at the next open")
+	nk := w.Field("badger.KeyRegistry.nextKeyID")
+	dks := w.Field("badger.KeyRegistry.dataKeys")
+	kid := w.Field("pb.DataKey.KeyId")
+	rd := w.F("badger.readKeyRegistry")
+	var stores []ast.Node
+	for _, s := range rd.SitesDeep(selStore(nk)) {
+		stores = append(stores, s.Site)
+	}
+	isNK := func(e ast.Expr) bool { _, isSel := unparen(e).(*ast.SelectorExpr); return isSel && w.fieldOf(e) == nk }
+	isKid := func(e ast.Expr) bool { _, isSel := unparen(e).(*ast.SelectorExpr); return isSel && w.fieldOf(e) == kid }
+	n := 0
+	var k keyer
+	for _, s := range stores {
+		as, ok := s.(*ast.AssignStmt)
+		if !ok || len(as.Rhs) != 1 || !isKid(as.Rhs[0]) {
+			r.Check(false, rd, k.key("nextKeyID taken from a key id read", w, s), s, "nextKeyID is assigned something other than a data key's id while reading the registry")
+			continue
+		}
+		n++
+		op, g := w.guardRel(w.Guards(w.fnOf(s), s), isKid, isNK, false)
+		r.Check(g != nil && (op == token.GTR || op == token.GEQ), rd, k.key("nextKeyID is the running maximum of the ids read", w, s), s, "nextKeyID is overwritten with the id of the key just read without `id > nextKeyID`: after a registry rewrite (map order) it can end below an existing id, and the next rotation reuses that id")
+	}
+	r.Exists(n == 1, rd, "nextKeyID maintained while reading", nil, "readKeyRegistry does not raise nextKeyID from the ids it reads")
+	// stores into dataKeys are keyed by the stored key's id
+	for _, o := range allSites(w, "badger", selStore(dks)) {
+		as, ok := o.Node.(*ast.AssignStmt)
+		if !ok || len(as.Lhs) != 1 || len(as.Rhs) != 1 {
+			continue
+		}
+		ix, isIx := unparen(as.Lhs[0]).(*ast.IndexExpr)
+		if !isIx {
+			continue // the map itself being (re)initialised
+		}
+		idx := w.Origin(o.SiteFn, ix.Index)
+		okKey := isKid(idx) || isNK(idx)
+		if isNK(idx) {
+			// keyed by nextKeyID: the stored key must have been given that id (KeyId: kr.nextKeyID) after an increment in the same critical section
+			mu := embeddedMutex(w, "badger.KeyRegistry")
+			incs := o.SiteFn.Root().Sites(selStore(nk))
+			okInc := false
+			for _, inc := range incs {
+				if _, isInc := inc.(*ast.IncDecStmt); isInc || w.mentions(inc, nk) {
+					okInc = true
+					if mu != nil {
+						o.SiteFn.Root().sameCS(r, "id allocated and key stored in one hold of the registry lock", inc, o.Node, mu)
+					}
+				}
+			}
+			r.Check(okInc, o.SiteFn, k.key("a new data key gets a fresh id", w, o.Node), o.Node, "a data key is stored under nextKeyID without nextKeyID being advanced first")
+		}
+		r.Check(okKey, o.SiteFn, k.key("dataKeys keyed by the key's own id", w, o.Node), o.Node, "a data key is stored under "+short(w, ix.Index)+", which is not its KeyId")
+	}
+}
+
+// sameCS adapter: both nodes in one critical section of lock (write mode).
+func (f *Fn) sameCS(r *RuleInfo, what string, a, b ast.Node, lock types.Object) {
+	r.SameCS(f, what, a, b, lock, 2)
+}
+
 func propC23(c *Check) {
+	ruleR23_5(c)
 	ruleR23_1(c)
 	ruleR23_2(c)
 	ruleR23_3(c)
